@@ -92,6 +92,19 @@ func checkC07(c *vk.Ctx) {
 	c.MinEvents["rx_PUBACK"] = 300
 	c.MinEvents["rx_PUBCOMP"] = 100
 	c.MinEvents["publish_refused_topic"] = 20
+	// second profile: acknowledgements withheld so that broker-outbound ids stay outstanding, PUBREL packets that carry
+	// such an id or belong to an exchange that is already complete, own publishes reusing outstanding ids
+	p2 := *p
+	p2.Name = "reqresp-ids"
+	p2.DenyPct, p2.DenySubPct, p2.BadTopicPct = 0, 0, 0
+	p2.Filters = baseFilters
+	p2.SubQoS = []byte{1, 2, 2}
+	p2.PubQoS = []byte{1, 2, 2}
+	p2.CollidePct = 35
+	p2.W = map[string]int{"connect": 3, "subscribe": 6, "publish": 12, "disconnect": 1, "ping": 2, "hold": 4, "ackone": 2, "pubrel": 6}
+	h2 := &histRun{Prop: "C07", Profile: &p2, N: c.N(300, 8000), Label: 702, Nontrivial: []string{"pubrel_with_colliding_id"}}
+	h2.run(c)
+	c.MinEvents["pubrel_with_colliding_id"] = 100
 	c07Probes(c)
 }
 
